@@ -1910,7 +1910,12 @@ func (p *Parser) parseExpressionSuffix(left IExpr, prec, precLeft OpPrec) IExpr 
 				return nil
 			}
 			p.next()
-			left = &BinaryExpr{tt, left, p.parseExpression(OpAssign)}
+			// the right-hand side may be the default value of a destructuring arrow function parameter, it has no influence on whether we are parsing parameters
+			prevAssumeArrowFunc := p.assumeArrowFunc
+			p.assumeArrowFunc = false
+			right := p.parseExpression(OpAssign)
+			p.assumeArrowFunc = prevAssumeArrowFunc
+			left = &BinaryExpr{tt, left, right}
 			precLeft = OpAssign
 		case LtToken, LtEqToken, GtToken, GtEqToken, InToken, InstanceofToken:
 			if OpCompare < prec || !p.in && tt == InToken {
